@@ -168,6 +168,9 @@ class Recorder:
                 mesh_size=float(b.optim_state["mesh_size"]),
                 nlogged=int(np.sum(b.function_logger.X_flag)),
                 budget_eff=float(b.options["max_fun_evals"]),
+                search_factor=float(b.optim_state.get("search_factor", 1.0)),
+                mesh_overflows=int(getattr(b, "mesh_overflows", 0)),
+                lastfitgp=float(b.optim_state.get("lastfitgp", float("-inf"))),
             )
 
         def mk_step(name, site):
